@@ -27,8 +27,12 @@ class Case:
 
 class Contract:
     def __init__(self, qualname, *, cases, spec=None, requires=None, raises=(), props=(), layer=1,
-                 post=None, inline=(), doc="", invoke=None, axiom_opts=None):
+                 post=None, inline=(), doc="", invoke=None, axiom_opts=None, key=None, inline_all=False, native_post=None):
         self.qualname = qualname
+        self.key = key or qualname    # registry key (a function may carry, besides its contract, DIRECT property checks)
+        self.inline_all = inline_all  # verify with NO callee replaced by its contract (whole call tree executed)
+        self.native_post = native_post  # native_post(real result, *native args) -> list of failure texts (native replay of `post`)
+        self.tscale = 1.0             # solver time budget multiplier for this contract (set after construction where needed)
         self.cases = cases            # list[Case]; Case.build(engine) -> (args tuple, kwargs dict)
         self.spec = spec              # spec(*args, **kwargs) -> expected value (also used by the stub)
         self.requires = requires      # requires(*args, **kwargs) -> list[(name, B-value)]
@@ -43,7 +47,7 @@ class Contract:
         self.owner, self.attr, self.orig = resolve(qualname)
         self.sig = inspect.signature(self.orig)
         self.is_init = self.attr == "__init__"
-        REGISTRY[qualname] = self
+        REGISTRY[self.key] = self
 
     # ---------------------------------------------------------------- binding
     def bind(self, args, kwargs):
@@ -163,9 +167,12 @@ def shimmed():
 
 
 @contextlib.contextmanager
-def stubbed(except_for=()):
+def stubbed(except_for=(), nothing=False):
     """replace every contracted function (but `except_for`) by its stub, wherever the exponax modules
-    reference it (module globals, class attributes)"""
+    reference it (module globals, class attributes).  nothing=True: no function is replaced (direct checks)"""
+    if nothing:
+        yield
+        return
     saved = []
     skip = set(except_for)
     by_obj = {}
@@ -447,7 +454,7 @@ def verify_contract(c: Contract, *, only_case=None):
     for case in c.cases:
         if only_case is not None and case.label != only_case:
             continue
-        eng = Engine(f"{c.qualname}[{case.label}]")
+        eng = Engine(f"{c.key}[{case.label}]")
         eng.axiom_opts = dict(c.axiom_opts)
 
         def harness(e, case=case):
@@ -515,7 +522,7 @@ def verify_contract(c: Contract, *, only_case=None):
                 # divisions whose denominator is non-zero only by a documented assumption on the inputs
                 e.div_assume = True
                 e.assumptions_used.add(f"denominators in {c.qualname} assumed non-zero: {ctx['no_div']}")
-            with shimmed(), stubbed(except_for={c.qualname} | c.inline), _ops.scan_rules(*ctx.get("scan_rules", [])):
+            with shimmed(), stubbed(except_for={c.qualname} | c.inline, nothing=c.inline_all), _ops.scan_rules(*ctx.get("scan_rules", [])):
                 try:
                     import io
                     with contextlib.redirect_stdout(io.StringIO()):
@@ -551,7 +558,7 @@ def verify_contract(c: Contract, *, only_case=None):
                         # higher-order result: the returned function is applied to symbolic arguments (under the
                         # shim, with the loop rules of the case) and compared with the spec function's value
                         e.prove(f"{tag}result is callable", callable(res), kind="ensures")
-                        with shimmed(), stubbed(except_for={c.qualname} | c.inline), _ops.scan_rules(*ctx.get("apply_scan_rules", [])):
+                        with shimmed(), stubbed(except_for={c.qualname} | c.inline, nothing=c.inline_all), _ops.scan_rules(*ctx.get("apply_scan_rules", [])):
                             res = res(*ctx["apply"])
                         with engine.no_div_guard():
                             exp = exp(*ctx["apply"])
@@ -559,6 +566,11 @@ def verify_contract(c: Contract, *, only_case=None):
                 if c.post is not None and not tag:
                     c.post(e, res, *bargs, **bkw)
             return True
-        eng.run(harness)
+        old_scale = engine.TSCALE
+        engine.TSCALE = old_scale * c.tscale
+        try:
+            eng.run(harness)
+        finally:
+            engine.TSCALE = old_scale
         engines.append(eng)
     return engines
